@@ -6,8 +6,10 @@
      inputs that a verified checker [cond_ok] validates per instance), per-SCC node sets, pull/push
      dynamic programmes over the condensation, and the two per-node caches
    * stDAG.reachable_nodes_from / nodes_reaching: pull DP over the (reverse) topological order
-   * the cache state machine of stDiGraph for query sequences (with the aliasing switch: the code hands
-     out the cached set object itself).
+   * the cache state machine of stDiGraph for query sequences.  Switch [alias]: true = the behaviour
+     before /repo a35dc8c (the cached mutable set object itself was handed out, so a caller could
+     corrupt it); false = the code as it is now ([code_alias]): the cached object is a frozenset, a
+     caller's attempt to mutate it is refused (AttributeError) and changes nothing.
    Proofs are in ReachProofs*.v. *)
 From Coq Require Import List NArith ZArith Bool Arith Lia.
 Import ListNotations.
@@ -177,13 +179,13 @@ Section StDiGraph.
 
   Inductive query :=
   | QReach (v : node) | QReaching (v : node) | QScc (u v : node)
-  | QMut (fwd add : bool) (v x : node).   (* the CALLER adds/discards x in the set object it was handed for (fwd, v) *)
-  Inductive answer := ANodes (l : list node) | ABool (b : bool) | AErr | AUnit.
+  | QMut (fwd add : bool) (v x : node).   (* the CALLER tries to add/discard x in the set object it was handed for (fwd, v) *)
+  Inductive answer := ANodes (l : list node) | ABool (b : bool) | AErr | AUnit | ARefused.
 
   Definition ans (o : option (list node)) : answer := match o with Some l => ANodes l | None => AErr end.
 
-  (* alias = true: the code as it is (the returned object IS the cache entry);
-     alias = false: the query returns a fresh copy *)
+  (* alias = true: old behaviour (the returned object IS the mutable cache entry; mutation succeeds: AUnit);
+     alias = false: the code as it is (immutable object; the mutation attempt is refused: ARefused) *)
   Definition qstep (alias : bool) (k : cache) (q : query) : cache * answer :=
     match q with
     | QReach v =>
@@ -212,7 +214,7 @@ Section StDiGraph.
           let g := fun s => if add then x :: s else filter (fun y => negb (y =? x)%N) s in
           (if fwd then {| k_from := modify v g (k_from k); k_to := k_to k |}
            else {| k_from := k_from k; k_to := modify v g (k_to k) |}, AUnit)
-        else (k, AUnit)
+        else (k, ARefused)
     end.
 
   Fixpoint qrun (alias : bool) (k : cache) (qs : list query) : list answer :=
@@ -221,6 +223,7 @@ Section StDiGraph.
     | q :: r => let '(k', a) := qstep alias k q in a :: qrun alias k' r
     end.
 
+  Definition code_alias : bool := false.        (* the code as it is *)
   Definition cold_answer (q : query) : answer := snd (qstep false cache0 q).
   Definition is_mut (q : query) : bool := match q with QMut _ _ _ _ => true | _ => false end.
 End StDiGraph.
